@@ -37,6 +37,11 @@ def gen(rng, tier, idx):
                                  shared_names=rng.random() < 0.25)
     wp['n_leaves'] = rng.choice([2, 3, 4, 5, 6, 8])
     wp['n_genes'] = rng.choice([12, 16, 24, 40])
+    u = rng.random()
+    if u < 0.04:
+        wp['n_genes'] = 300          # gene indices past 2**8 in the marker files
+    elif u < 0.07:
+        wp['n_leaves'] = 24          # 276 cluster pairs
     return {'wp': wp, 'kcfg': common.draw_kernel_cfg(rng),
             'stats': {'n_files': rng.randint(1, 3), 'encoding': rng.choice(['dense', 'csr', 'csc']),
                       'rows_at_a_time': rng.randint(1, 9), 'n_processors': rng.randint(1, 4)},
